@@ -609,4 +609,84 @@ theorem cacheFileName_getLast (dir path e : Bytes) (c : Coding) :
   rw [this, getLast?_append_ne_nil _ _ hl]
 
 
+/-! ### injectivity of the cache file name (static files) -/
+
+theorem digits_append_inj : ∀ (r1 r2 a b : Bytes), (∀ x ∈ r1, isDigit x = true) → (∀ x ∈ r2, isDigit x = true) →
+    r1 ++ dash :: a = r2 ++ dash :: b → r1 = r2 ∧ a = b := by
+  intro r1
+  induction r1 with
+  | nil =>
+    intro r2 a b _ h2 h
+    cases r2 with
+    | nil => simpa using h
+    | cons y r2 =>
+      simp only [List.nil_append, List.cons_append, List.cons.injEq] at h
+      have := h2 y (by simp)
+      rw [← h.1] at this
+      exact absurd this (by decide)
+  | cons x r1 ih =>
+    intro r2 a b h1 h2 h
+    cases r2 with
+    | nil =>
+      simp only [List.nil_append, List.cons_append, List.cons.injEq] at h
+      have := h1 x (by simp)
+      rw [h.1] at this
+      exact absurd this (by decide)
+    | cons y r2 =>
+      simp only [List.cons_append, List.cons.injEq] at h
+      obtain ⟨rfl, h⟩ := h
+      obtain ⟨rfl, rfl⟩ := ih r2 a b (fun z hz => h1 z (by simp [hz])) (fun z hz => h2 z (by simp [hz])) h
+      exact ⟨rfl, rfl⟩
+
+theorem cacheFileName_static (dir p d : Bytes) (c : Coding) :
+    cacheFileName dir p (staticEtag d c) = pathJoin dir p ++ dash :: d ++ dash :: c.label := by
+  unfold cacheFileName staticEtag
+  have : (dquote :: d ++ dash :: c.label ++ [dquote]).drop 1 = (d ++ dash :: c.label) ++ [dquote] := by simp
+  rw [this, List.dropLast_concat]
+  simp
+
+theorem cacheFileName_static_inj (dir p1 p2 d1 d2 : Bytes) (c1 c2 : Coding)
+    (hn1 : d1 ≠ []) (hn2 : d2 ≠ [])
+    (hd1 : ∀ x ∈ d1, isDigit x = true) (hd2 : ∀ x ∈ d2, isDigit x = true)
+    (h : cacheFileName dir p1 (staticEtag d1 c1) = cacheFileName dir p2 (staticEtag d2 c2)) :
+    pathJoin dir p1 = pathJoin dir p2 ∧ d1 = d2 ∧ c1 = c2 := by
+  rw [cacheFileName_static, cacheFileName_static] at h
+  have hr := congrArg List.reverse h
+  simp only [List.reverse_append, List.reverse_cons, List.append_assoc, List.singleton_append] at hr
+  -- reversed digit strings are non-empty digit strings
+  have hr1 : ∀ x ∈ d1.reverse, isDigit x = true := fun x hx => hd1 x (List.mem_reverse.mp hx)
+  have hr2 : ∀ x ∈ d2.reverse, isDigit x = true := fun x hx => hd2 x (List.mem_reverse.mp hx)
+  have hne1 : d1.reverse ≠ [] := by simpa using hn1
+  have hne2 : d2.reverse ≠ [] := by simpa using hn2
+  have hc : c1 = c2 := by
+    cases c1 <;> cases c2 <;> first
+      | rfl
+      | (exfalso
+         simp [Coding.label, dash] at hr
+         try (
+           cases hx : d1.reverse with
+           | nil => exact hne1 hx
+           | cons x xs =>
+             rw [hx] at hr
+             simp at hr
+             have := hr1 x (by simp [hx])
+             rw [hr.1] at this
+             exact absurd this (by decide))
+         try (
+           cases hx : d2.reverse with
+           | nil => exact hne2 hx
+           | cons x xs =>
+             rw [hx] at hr
+             simp at hr
+             have := hr2 x (by simp [hx])
+             rw [← hr.1] at this
+             exact absurd this (by decide)))
+  subst hc
+  have hr' : d1.reverse ++ dash :: (pathJoin dir p1).reverse = d2.reverse ++ dash :: (pathJoin dir p2).reverse := by
+    have := List.append_cancel_left hr
+    simpa using this
+  obtain ⟨h1, h2⟩ := digits_append_inj _ _ _ _ hr1 hr2 hr'
+  exact ⟨List.reverse_inj.mp h2, List.reverse_inj.mp h1, rfl⟩
+
+
 end LtVerif.Deflate
